@@ -22,7 +22,7 @@ P = "Sympler.Verlet."
 THEOREMS = [P + t for t in ["C02_scan_sound", "C02_scan_iff", "C02_scan_complete", "C02_scan_old_unsound_witness", "C02_scan_old_order_dependent",
                             "C02_scan_old_partial", "C02_first_step_rebuilds", "C02_first_step_magnitude", "C02_scan_empty_never_rebuilds",
                             "C02_every_mode", "C02_refresh_minimage", "C02_refresh_no_false_close", "C02_refresh_box_condition_sharp",
-                            "C02_refreshVec_components"]]
+                            "C02_refreshVec_components", "C02_scan_scope"]]
 THEOREMS_R = [P + t for t in ["C02_verlet_geometric_shift", "C02_verlet_geometric", "C02_verlet_geometric_minimage", "C02_listCutoff_cast", "C02_scan_keeps_close_pairs"]]
 MODULES = ["Sympler.Verlet", "Sympler.VerletLemmas", "Sympler.Gen.VerletGen", "Props.C02", "PropsR.C02"]
 
